@@ -23,7 +23,8 @@ RULE = ("bounded-exhaustive small-scope exploration of source texts, each a fres
         "into every mnemonic, directive, register and literal prefix, in 16 statement templates, and non-ASCII digits as operands; (i) every "
         "include graph over 2 files (thorough: 3) with bodies of <= 3 (2) statements from {.include a/b(/c), .once, nop(, .end)}, judged "
         "against a reference expansion (finite: ok with that many nops; endless: a reported error); (j) every Python codec name and alias as "
-        "--charset through the command line x 8 sources; (k) 8 astronomically large/small values x 58 consumers x 2 orders. Oracle: the outcome is 'ok' or 'fail with >= 1 error diagnostic' - never an internal "
+        "--charset through the command line x 8 sources; (k) 8 astronomically large/small values x 58 consumers x 2 orders; (l) 25 programs with 10-97 statements whose size depends on their "
+        "address while the link base or an earlier size is still unknown, each within a 20 s budget. Oracle: the outcome is 'ok' or 'fail with >= 1 error diagnostic' - never an internal "
         "exception, a hang (step budget of hook 2, wall-clock back-stop) or a failure without diagnostic. state = one source text; "
         "non-trivial = distinct text whose outcome is not 'ok'")
 ASSUMPTIONS = ["non-termination is decided by the step budget in deferred.wait() (hook 2) and a wall-clock back-stop; large finite work is not a violation "
@@ -45,6 +46,7 @@ CONSUMERS = [
     "§", "§, §", "lbl: §", "§:", "§ = 5", ".repeat 2 { § }", ".word 1, §, 2",
     # a block whose count is only known later is assembled later, outside the file's own block
     ".repeat q9 { § }\nq9 = 2", ".repeat q9 { .repeat q8 { § } }\nq9 = 1\nq8 = 2", ".repeat q9 { nop\n§\nnop }\n.word q9\nq9 = 2",
+    ".repeat q9 { § }\nq9 = 1\n.link .", ".repeat q9 { § }\nq9 = 1\n. = .+2", "lbl7: .repeat q9 { § }\nq9 = 1\n.link lbl7",
 ]
 SHAPES = [
     # literals
@@ -101,10 +103,13 @@ def fold_words():
 # (i) include graphs: files a.mac and b.mac (thorough: also c.mac), every body of <= 3 (thorough: 2) statements
 def inc_bodies(tier):
     files = ["a", "b", "c"] if tier == "thorough" else ["a", "b"]
-    alphabet = [".include \"%s.mac\"" % f for f in files] + [".once", "nop"] + ([".end"] if tier == "thorough" else [])
+    # (the third form is an include that is carried out late: the count of its block is defined at the end of the file)
+    alphabet = [".include \"%s.mac\"" % f for f in files] + [".once", "nop"] + ([".end"] if tier == "thorough" else []) + [".repeat rq { .include \"%s.mac\" }" % f for f in files[:2]]
     out = [()]
+    plain = [a for a in alphabet if not a.startswith(".repeat")]
     for n in range(1, (2 if tier == "thorough" else 3) + 1):
-        out += list(itertools.product(alphabet, repeat=n))
+        # bodies of three statements only without the late form (the product of the bodies of all files is what is enumerated)
+        out += list(itertools.product(alphabet if n <= 2 else plain, repeat=n))
     return out
 
 
@@ -129,6 +134,8 @@ def include_reference(bodies):
             elif st == "nop":
                 n += 1
             else:
+                # (a file whose only way out is '.once' *below* a late include is entered again before the guard is reached
+                # only if the include really is carried out before it; the reference follows source order, as for a literal count)
                 n += expand(st.split('"')[1][:-4], depth + 1)
         return n
     try:
@@ -195,6 +202,7 @@ def cases(tier):
     yield {"k": "faults"}
     yield {"k": "cli"}
     yield {"k": "cli-mute"}
+    yield {"k": "relayout"}
     for ch in range(len(FOLD_CHARS)):
         yield {"k": "fold", "ch": ch}
     for b in range(len(inc_bodies(tier))):
@@ -413,6 +421,43 @@ def check(case, r, tier):
         for argv, tree in runs:
             cli_judge(r, argv, tree)
         return
+    if k == "relayout":
+        # many statements whose size depends on their address, while something they depend on is not known yet (the link base, a size
+        # defined at the end): short inputs that must not take an amount of work that doubles with every statement
+        import signal
+
+        class Budget(BaseException):
+            pass
+
+        def over(*_a):
+            raise Budget()
+        progs = []
+        for n in (10, 20, 40, 97):
+            progs.append(("repeat-even-%d" % n, ".repeat %d. { .even\n.byte 1 }\n" % n))
+            progs.append(("evens-late-link-%d" % n, ".byte 1\n" + ".even\n.byte 1\n" * n + ".link 2001\n"))
+            progs.append(("evens-late-size-%d" % n, ".link 1000\n.blkb a\n" + ".byte 1\n.even\n" * n + "a = 3\n"))
+            progs.append(("aligns-default-base-%d" % n, ".byte 1\n" + ".align 4\n.byte 2\n.odd\n" * (n // 2)))
+            progs.append(("skips-late-size-%d" % n, ".link 1000\n.blkb a\n" + "".join(". = a+%d.\n" % (2 * i + 2000) for i in range(n)) + "a = 3\n"))
+            progs.append(("ascii-dot-%d" % n, "".join(".ascii <.&77>\n.even\n" for _ in range(n // 2)) + ".link 3000\n"))
+        progs.append(("repeat-char-even", ".repeat 'a { .even\n"))
+        for name, text in progs:
+            old = signal.signal(signal.SIGALRM, over)
+            signal.setitimer(signal.ITIMER_REAL, 20)
+            try:
+                out = judge(text, r, ("relayout", name), False)
+                status = out.status
+            except Budget:
+                status = "over-budget"
+                if driver.module_state_dirty():
+                    driver.reset_module_state()
+            finally:
+                signal.setitimer(signal.ITIMER_REAL, 0)
+                signal.signal(signal.SIGALRM, old)
+            if status == "over-budget":
+                r.ran("hang", key=("relayout", name))
+                r.violation("hang:work-doubles-with-every-address-dependent-statement", "%s: not assembled within 20 s (%d bytes of source)" % (name, len(text)),
+                            {"k": "text", "text": text, "tree": False}, "ok or fail", "no result within 20 s")
+        return
     if k == "cli-mute":
         # a failing run says why whatever -W options are given: every catalogue error x the -Wno- options that could name it
         from .c07 import error_indications
@@ -479,16 +524,20 @@ def check(case, r, tier):
             for nm, body in zip(names, (a,) + rest):
                 tree[nm + ".mac"] = "".join("\t" + st + "\n" for st in body)
             key = tuple(sorted(tree.items()))
-            out = judge(None, r, key, False, tree=tree, files=[("a.mac", tree["a.mac"])])
+            # the count of the late blocks is exported by a file linked after everything else
+            late = [("zq.mac", "rq == 1\n")] if any("rq" in t for t in tree.values()) else []
+            out = judge(None, r, key, False, tree=tree, files=[("a.mac", tree["a.mac"])] + late)
             # reference expansion: '.once' lets a file contribute only the first time, '.end' stops a file, a nop is two bytes;
             # with '.once' as the only way out no finite expansion nests deeper than twice the number of files
             want = include_reference(dict(zip(names, (a,) + rest)))
             if out.status in ("ok", "fail"):
-                good = (out.status == "fail") if want is None else (out.status == "ok" and out.code == b"\xa0\x00" * want)
+                # (with late blocks the '.once' guards fire in the order in which the blocks are carried out, not in source order - a
+                # recorded finding of DESIGN.md section 13, not C08's subject: only termination and the outcome class are demanded then)
+                good = (out.status == "fail") if want is None else (out.status == "ok" and (bool(late) or out.code == b"\xa0\x00" * want))
                 if not good:
                     r.violation("include-graph:%s-but-%s" % (out.status, "infinite" if want is None else "finite"),
                                 "files that include one another: %s" % ("the inclusion never ends, an error is due" if want is None else "the inclusion ends, %d nops are due" % want),
-                                {"k": "files", "files": [["a.mac", tree["a.mac"]]], "tree": tree}, "fail" if want is None else "ok, %d bytes" % (2 * want), out.brief())
+                                {"k": "files", "files": [["a.mac", tree["a.mac"]]] + [list(f) for f in late], "tree": tree}, "fail" if want is None else "ok, %d bytes" % (2 * want), out.brief())
         return
     if k == "charsets":
         for cs in charset_names()[case["lo"]:case["hi"]]:
